@@ -375,7 +375,7 @@ def wl_C16(rng, w, cfg, index):
     ic_reads = rng.random() < 0.4
     cfg['p_ic'] = 0.3 if rng.random() < 0.4 else 0.0
     wts = dict(cfg.get('weights') or {})
-    wts.update({'to_string': 0.3, 'to_string_ic': 0.0, 'check': 0.0, 'check_ic': 0.0, 'read': 0.0, 'deep': 1.0})
+    wts.update({'to_string': 0.3, 'to_string_ic': 0.0, 'check': 0.0, 'check_ic': 0.0, 'read': 0.0, 'deep': 1.0, 'add_under_unchecked': 1.0})
     cfg['weights'] = wts
     cfg['p_final_serialise'] = 1.0
     if ic_reads:
@@ -424,8 +424,10 @@ def wl_C16(rng, w, cfg, index):
                 table = [(a, d) for a, d in spec.attributes_of_element(root.name).items()
                          if spec.simple_info(d['type'])['kind'] in ('string', 'token') and gen._attr_usable(a)]
                 if table:
-                    a, d = rng.choice(table)
-                    yield {'op': 'ATTR_SET', 'a': 0, 'p': ['d0'], 'name': spec.py_attr_name(a), 'value': tricky_string(rng)}
+                    reqd = [x for x in table if x[1]['required']]
+                    a, d = rng.choice(reqd) if (reqd and rng.random() < 0.5) else rng.choice(table)
+                    val = '' if rng.random() < 0.2 else tricky_string(rng)
+                    yield {'op': 'ATTR_SET', 'a': 0, 'p': ['d0'], 'name': spec.py_attr_name(a), 'value': val}
 
     def reader():
         for _ in range(rng.randint(2, 10)):
@@ -1104,6 +1106,13 @@ def wl_C09(rng, w, cfg, index):
                     text.encode(enc)
                 except UnicodeEncodeError:
                     text = text.encode(enc, 'xmlcharrefreplace').decode(enc)
+            if rng.random() < 0.2:
+                # a comment of seeded length before the root element: large files, and read-block boundaries (8/16/64 KiB)
+                # of a streaming reader fall at ever different places of the document
+                pad = rng.choice([8192, 16384, 32768, 65536]) - rng.randrange(0, min(len(text), 6000) + 1)
+                i = text.index('?>') + 2
+                text = text[:i] + '\n<!--' + ('x' * max(0, pad - i - 9)) + '-->' + text[i:]
+                w.count('c09.padded_documents')
             yield {'op': 'FSPUT', 'path': 'f.xml', 'hex': text.encode(enc).hex()}
             w.count('c09.foreign_encoding.' + enc)
             valid = True
